@@ -30,6 +30,7 @@ T == Traces[tid]
 Bug == "none"
 Fmts == {"eeprom", "ow", "lh", "lhfile", "paramfile", "poly", "led", "deck", "loco", "loco2"}
 CaseSet == <<>>
+MkCase(f, p) == p
 MaxCorrupt == 1000000
 CorruptPos == [f \in {"eeprom", "ow"} |-> 1..65536]
 CorruptVals == 0..255
